@@ -118,3 +118,88 @@ Proof. exact errors_excluded. Qed.
 Theorem C11_loop_is_relation : forall cfg pos s tr e f,
   play_loop cfg pos s = Done tr e f <-> run cfg pos s tr e f.
 Proof. exact loop_iff_run. Qed.
+
+(* ---- compositions (work package X; proofs/ComposeSelfPlay.v): the hypotheses of C11_candidates_legal /
+   C11_recorded_rows_good discharged for the real engine.  `ComposeSelfPlay.answer_of_tree solve C t pick` is
+   what the loop reads off a search tree t of model/Mcts.v (C11_answer_of_tree_reads); solve stands for
+   tak_ext.solve_policy, C for Config.C ---- *)
+From TV Require model.Mcts model.Solver spec.Rules spec.EncodingSpec proofs.Generator proofs.MctsProofs
+  proofs.SolverProofs proofs.ComposeSelfPlay.
+(* the fields of answer_of_tree: children's moves, tree_probs(tree), tree.value, tree.simulations, tree.v_zero, the sampled index *)
+Theorem C11_answer_of_tree_reads : forall cutoff solve C t ks pk,
+  MctsProofs.Good cutoff t -> Mcts.n_kids t = Some ks ->
+  let a := ComposeSelfPlay.answer_of_tree solve C t pk in
+  map Some (a_moves a) = map Mcts.n_move ks /\ a_probs a = Mcts.policy_probs solve t C /\
+  a_value a = Mcts.n_value t /\ a_sims a = Z.of_nat (Mcts.n_sims t) /\ a_vzero a = Mcts.n_v0 t /\ a_pick a = pk.
+Proof. exact ComposeSelfPlay.answer_of_tree_reads. Qed.
+(* C11 + C08 (+ C01, C04): if every consumed answer is read off an expanded tree satisfying C08's invariant and grown for the recorded position, then (a) the hypothesis of C11_candidates_legal holds, so every recorded candidate is legal, and the candidates of a row are distinct (hypothesis of C12_dense_target); (b) the next recorded position - computed by the model as `move pos m` - is the position stored in the chosen child (closes the open item of notes/C11.md); (c) for sizes 3..8 every recorded position is well formed and "legal" is the rulebook relation of C01.  No assumption on the solver *)
+Theorem C11_real_engine_transcript_legal : forall cutoff solve C cfg s tr e f,
+  play_one_game cfg s = Done tr e f ->
+  (forall i p, nth_error (t_positions tr) i = Some p ->
+     exists t pk ks, nth_error s i = Some (ComposeSelfPlay.answer_of_tree solve C t pk) /\
+                     MctsProofs.Good cutoff t /\ Mcts.n_kids t = Some ks /\ Mcts.n_pos t = p) ->
+  (forall i p a, nth_error (t_positions tr) i = Some p -> nth_error s i = Some a ->
+     forall m, In m (a_moves a) -> move p m <> None) /\
+  (forall i p ms m, nth_error (t_positions tr) i = Some p -> nth_error (t_moves tr) i = Some ms ->
+     In m ms -> exists q, move p m = Some q) /\
+  (forall i ms, nth_error (t_moves tr) i = Some ms -> NoDup ms) /\
+  (forall i p q, nth_error (t_positions tr) i = Some p -> nth_error (t_positions tr) (S i) = Some q ->
+     exists t pk ks k m, nth_error s i = Some (ComposeSelfPlay.answer_of_tree solve C t pk) /\ Mcts.n_pos t = p /\
+       Mcts.n_kids t = Some ks /\ nthz ks pk = Some k /\ Mcts.n_move k = Some m /\
+       picks (ComposeSelfPlay.answer_of_tree solve C t pk) m /\ Mcts.n_pos k = q) /\
+  (3 <= sp_size cfg <= 8 ->
+     Forall Rules.wf_pos (t_positions tr) /\
+     (forall i p ms m, nth_error (t_positions tr) i = Some p -> nth_error (t_moves tr) i = Some ms ->
+        In m ms -> Generator.canonical m /\ exists q, Rules.legal_step p m q) /\
+     (forall i p q, nth_error (t_positions tr) i = Some p -> nth_error (t_positions tr) (S i) = Some q ->
+        exists ms m, nth_error (t_moves tr) i = Some ms /\ In m ms /\ Rules.legal_step p m q)).
+Proof. exact ComposeSelfPlay.real_engine_transcript_legal. Qed.
+(* C11 + C08/C09: with evaluations in [-1,1] (Bounded) every recorded row has as many probabilities as candidates and a value in [-1,1].  ASSUMES of the solver output only that it has the length of the prior it is given (partial: that the probabilities are non-negative and sum to one is the solver's, C10) *)
+Theorem C11_real_engine_rows_partial : forall cutoff solve C cfg s tr e f,
+  play_one_game cfg s = Done tr e f ->
+  (forall i p, nth_error (t_positions tr) i = Some p ->
+     exists t pk ks, nth_error s i = Some (ComposeSelfPlay.answer_of_tree solve C t pk) /\
+                     MctsProofs.Good cutoff t /\ MctsProofs.Bounded t /\ Mcts.n_kids t = Some ks /\ Mcts.n_pos t = p) ->
+  (forall i, length (solve i) = length (Mcts.pi_prior i)) ->
+  forall i ms ps v, nth_error (t_moves tr) i = Some ms -> nth_error (t_probs tr) i = Some ps ->
+    nth_error (t_values tr) i = Some v ->
+    length ps = length ms /\ (-(1) <= v <= 1)%Q.
+Proof. exact ComposeSelfPlay.real_engine_rows_partial. Qed.
+(* ... and every consumed answer is `good_answer` (hypothesis of C11_recorded_rows_good) under the FURTHER assumption that the solver output is an exact distribution (C10 proves that only up to its tolerance, hence partial) *)
+Theorem C11_real_engine_answers_good_partial : forall cutoff solve C cfg s tr e f,
+  play_one_game cfg s = Done tr e f ->
+  (forall i p, nth_error (t_positions tr) i = Some p ->
+     exists t pk ks, nth_error s i = Some (ComposeSelfPlay.answer_of_tree solve C t pk) /\
+                     MctsProofs.Good cutoff t /\ MctsProofs.Bounded t /\ Mcts.n_kids t = Some ks /\ Mcts.n_pos t = p) ->
+  (forall i, length (solve i) = length (Mcts.pi_prior i)) ->
+  (forall i, Forall (fun p => 0 <= p)%Q (solve i) /\ (qsum (solve i) == 1)%Q) ->
+  forall i p a, nth_error (t_positions tr) i = Some p -> nth_error s i = Some a -> good_answer a.
+Proof. exact ComposeSelfPlay.real_engine_answers_good_partial. Qed.
+(* C11 + C09 + C10: with the Python-rule solver in exact arithmetic (multiplier lamf in (0,1024]) and the property's hypothesis `live`, no assumption is left: the recorded probabilities are the solver's returned weights on inputs meeting C10's hypothesis - positive, one per candidate, total within C10's tolerance.  Partial: exact arithmetic, not float32 *)
+Theorem C11_real_engine_exact_solver_rows_partial : forall cutoff C lamf cfg s tr e f,
+  (0 < cutoff)%Q -> (forall i, (0 < lamf i)%Q /\ (lamf i <= 1024)%Q) ->
+  play_one_game cfg s = Done tr e f ->
+  (forall i p, nth_error (t_positions tr) i = Some p ->
+     exists t pk ks, nth_error s i = Some (ComposeSelfPlay.answer_of_tree (ComposeSelfPlay.exact_solver lamf) C t pk) /\
+       MctsProofs.Good cutoff t /\ MctsProofs.Bounded t /\ Mcts.n_kids t = Some ks /\ Mcts.n_pos t = p /\
+       Mcts.live cutoff (Mcts.n_pos t) (Mcts.n_raw t) = true) ->
+  forall i ms ps v, nth_error (t_moves tr) i = Some ms -> nth_error (t_probs tr) i = Some ps ->
+    nth_error (t_values tr) i = Some v ->
+    length ps = length ms /\ Forall (fun x => 0 < x)%Q ps /\ (-(1) <= v <= 1)%Q /\
+    exists t ks pin k a, Mcts.n_kids t = Some ks /\ Mcts.policy_inputs t C = Some pin /\
+      SolverProofs.Hyp (lamf pin) (Mcts.pi_prior pin) (Mcts.pi_q pin) /\
+      Solver.solve_python_Q (lamf pin) (Mcts.pi_prior pin) (Mcts.pi_q pin) = Solver.Returned k a ps /\
+      SolverProofs.above (Mcts.pi_q pin) a /\
+      ((Qabs (1 - SolverProofs.Qsum ps) <= Solver.EPS_Q)%Q \/
+       ((forall x, SolverProofs.above (Mcts.pi_q pin) x -> (x < a - Solver.TOL_Q)%Q ->
+                   (1 < SolverProofs.f (lamf pin) (Mcts.pi_prior pin) (Mcts.pi_q pin) x)%Q) /\
+        (forall x, (a + Solver.TOL_Q < x)%Q ->
+                   (SolverProofs.f (lamf pin) (Mcts.pi_prior pin) (Mcts.pi_q pin) x < 1)%Q))).
+Proof. exact ComposeSelfPlay.exact_solver_rows. Qed.
+(* C11 + C04 / C06: the recorded positions are well formed (sizes 3..8) and in the domain of the token encoding (sizes 3..6) *)
+Theorem C11_transcript_positions_wf : forall cfg s tr e f, play_one_game cfg s = Done tr e f ->
+  3 <= sp_size cfg <= 8 -> Forall Rules.wf_pos (t_positions tr).
+Proof. exact ComposeSelfPlay.transcript_positions_wf. Qed.
+Theorem C11_transcript_positions_encodable : forall cfg s tr e f, play_one_game cfg s = Done tr e f ->
+  3 <= sp_size cfg <= 6 -> Forall EncodingSpec.encodable (t_positions tr).
+Proof. exact ComposeSelfPlay.transcript_positions_encodable. Qed.
